@@ -655,10 +655,13 @@ class Models(object):
                     allowed = _allowed_fn(a)
                     if a.nonempty and not any(allowed(c, "last") for c in chars):
                         break
-                    if not any(allowed(c, "any") for c in chars):
+                    if not any(allowed(c, "last") for c in chars):
                         # hole may be empty: if so the previous atom is exposed
-                        if a.nonempty:
+                        if a.nonempty or len(atoms) == 1:
                             break
+                        prev = atoms[-2]
+                        if isinstance(prev, Lit) and prev.s and prev.s[-1] not in chars:
+                            break           # even if the hole is empty, the exposed literal does not end with a stripped char
                         raise Undecided("strip past a possibly-empty hole")
                     raise Undecided("strip: hole may end with a stripped character")
                 raise Undecided("strip of %r" % (a,))
@@ -1031,6 +1034,9 @@ class Models(object):
         t[builtins.hash] = self.b_hash
         t[builtins.filter] = self.b_filter
         t[builtins.range] = self.b_range
+        t[builtins.enumerate] = self.b_enumerate
+        t[builtins.iter] = self.b_iter
+        t[builtins.zip] = self.b_zip
 
     def b_len(self, x):
         if isinstance(x, SStr):
@@ -1232,6 +1238,34 @@ class Models(object):
         n = z3.If(hi > lo, hi - lo, z3.IntVal(0))
         return SSeq(n, lambda i: SInt(lo + i), name="range", kind="range", rng=(lo, hi),
                     member=lambda b: z3.And(lo <= b, b < hi))
+
+    def _iterable(self, x):
+        """an argument of a structural builtin: objects with an interpreted __iter__ are iterated by
+        the interpreter, never natively"""
+        if isinstance(x, (list, tuple, dict, str, set, frozenset, range)) or isinstance(x, Sym):
+            return x
+        f = getattr(type(x), "__iter__", None)
+        if isinstance(f, types.FunctionType) and self.interp.should_interpret(f):
+            return self.interp.iterate(x)
+        return x
+
+    def b_enumerate(self, it, start=0):
+        it = self._iterable(it)
+        if isinstance(it, SSeq):
+            raise Undecided("enumerate over an abstract sequence")
+        return enumerate(it, start)
+
+    def b_iter(self, it, *a):
+        it = self._iterable(it)
+        if isinstance(it, Sym):
+            raise Undecided("iter() of %r" % (it,))
+        return iter(it, *a)
+
+    def b_zip(self, *its):
+        its = [self._iterable(i) for i in its]
+        if any(isinstance(i, Sym) for i in its):
+            raise Undecided("zip over an abstract sequence")
+        return zip(*its)
 
     def b_tuple(self, it=()):
         if isinstance(it, SSeq):
